@@ -59,6 +59,11 @@ fn main() {
         ("std::result::Result<crate::User, String>", TypeStructure::Result(Box::new(cus("User")))),
         ("(crate::User, std::string::String)", TypeStructure::Tuple(vec![cus("User"), TypeStructure::Primitive("string".into())])),
         ("&crate::models::User", cus("User")),
+        ("[User; _]", TypeStructure::Array(Box::new(cus("User")))),
+        ("[crate::models::User; 3]", TypeStructure::Array(Box::new(cus("User")))),
+        ("&[Item]", TypeStructure::Array(Box::new(cus("Item")))),
+        ("[[u8; _]; _]", TypeStructure::Array(Box::new(TypeStructure::Array(Box::new(TypeStructure::Primitive("number".into())))))),
+        ("Vec<[(String, User); 2]>", TypeStructure::Array(Box::new(TypeStructure::Array(Box::new(TypeStructure::Tuple(vec![TypeStructure::Primitive("string".into()), cus("User")])))))),
         ("Option<&crate::models::Item>", TypeStructure::Optional(Box::new(cus("Item")))),
     ];
     for (s, want) in &pathy {
@@ -73,6 +78,19 @@ fn main() {
             customs(want, &mut cs);
             let missing: Vec<&String> = cs.iter().filter(|c| !names.contains(*c)).collect();
             if missing.is_empty() { Ok(format!("{:?}", cs)) } else { Err(format!("project types {:?} occur in the type but extract_type_names harvested only {:?}", missing, { let mut v: Vec<_> = names.iter().collect(); v.sort(); v })) }
+        });
+    }
+    // C07 / C09: differential between the two real functions on spellings outside the grammar above: every
+    // non-generic custom leaf of the parsed tree must be harvested
+    for s in ["Result<Settings>", "Result<Vec<Settings>>", "crate::Result<Settings>", "anyhow::Result<Option<User>>", "point", "Option<point>", "Vec<_Hidden>", "_Hidden",
+              "HashMap<String, point>", "Result<(User, point), _Hidden>", "(User,)", "( User , Item )", "Vec< User >", "[User; _]", "[User]", "&[Item]", "Vec<[Item; 2]>", "[(User, [Item; 2])]", "[[User; _]; _]", "Option<[point; 4]>", "HashMap<String, [User; 3]>", "Option<Vec<(User, HashMap<String, Item>)>>"] {
+        rep.case("harvest_covers_parsed_customs", s, &|| {
+            let mut names = HashSet::new();
+            ca.extract_type_names(s, &mut names);
+            let mut cs = BTreeSet::new();
+            customs(&tr.parse_type_structure(s), &mut cs);
+            let missing: Vec<&String> = cs.iter().filter(|c| !c.contains('<') && !names.contains(*c)).collect();
+            if missing.is_empty() { Ok(format!("{:?}", cs)) } else { Err(format!("the resolver reads {:?} as project types of `{}` but extract_type_names harvested only {:?}", missing, s, { let mut v: Vec<_> = names.iter().collect(); v.sort(); v })) }
         });
     }
     rep.finish()
